@@ -14,7 +14,7 @@ LEVEL_TEXT = ('fault enumeration: for every explored run every I/O event (open/w
               'and chunk configurations. Right level because the property quantifies over crash points and configurations.')
 LEVEL_NOTE = ('trusted: SimFile proxy = the OS (process death, page cache survives; no power loss), strict framing parser '
               'sim/rp66.py; bounds: files <= ~64 kB, <= 4 configurations per specification')
-TIERS = {'quick': {'cases': 1200, 'wall': 40}, 'thorough': {'cases': 400000, 'wall': 840}}
+TIERS = {'quick': {'cases': 1200, 'wall': 60}, 'thorough': {'cases': 400000, 'wall': 840}}
 RULE = ('case = seeded valid specification (1-3 logical files, frames, no-format data; record length biased to 32..256) '
         'written under 3-4 (input chunk, output chunk, prior content) configurations, each in its own fork, plus torn '
         'writes and a real crash+restart; every open/write/close event of every write is a checked crash point. '
@@ -24,15 +24,15 @@ ASSUMPTIONS = ['SimFile performs each write() of the library as one unbuffered w
                'the page cache survives']
 
 
-def big_frame_case(rng):
-    """Directed (thorough only): one frame holding more than 64 MiB / 128 MiB of data - quantities a quick case never reaches -
+def big_frame_case(rng, sizes=(70, 140)):
+    """Directed (about 3 per quick run at 70 MiB, about 1 in 1500 thorough cases at 70 / 140 MiB): one frame holding more than 64 MiB / 128 MiB of data - quantities a quick case never reaches -
     written with the default input chunk (None) and with explicit ones: the bytes must not differ."""
     spec = gen.Spec(rng)
     spec.new_file(mrl=16384)
     lfi = spec.logical_file()
     spec.origin(lfi)
     width = rng.choice([1024, 2048])
-    rows = (rng.choice([70, 140]) * (1 << 20)) // (width * 8) + rng.randint(1, 50)
+    rows = (rng.choice(list(sizes)) * (1 << 20)) // (width * 8) + rng.randint(1, 50)
     c0 = spec.channel(lfi, 'DEPTH', {'dtype': '<f8', 'shape': [rows], 'kind': 'ramp', 'start': 0, 'step': 1})
     c1 = spec.channel(lfi, 'IMG', {'dtype': '<f8', 'shape': [rows, width], 'kind': 'rand', 'seed': rng.randrange(1 << 30)})
     spec.frame(lfi, 'BIG', [c0, c1])
@@ -42,8 +42,8 @@ def big_frame_case(rng):
 
 
 def gen_case(rng, tier, avoid):
-    if tier == 'thorough' and rng.random() < 1 / 1500.0:
-        return big_frame_case(rng)
+    if rng.random() < (1 / 1500.0 if tier == 'thorough' else 1 / 400.0):
+        return big_frame_case(rng) if tier == 'thorough' else big_frame_case(rng, sizes=(70,))
     n_lf = rng.choice([1, 1, 1, 2, 3])
     spec = gen.simple_file(rng, n_lf=n_lf, max_width=10)
     rows = gen.max_rows(spec)
